@@ -41,7 +41,8 @@ point.  The flags are the decidable trigger predicates of the `_partial` theorem
   `arity`  a plain inline function is partially applied with a number of arguments ≠ its arity, or
            passed to for-each/filter/sort with an arity ≠ 1 (neither is checked by the code, F16e)
   `focus`  `.` is evaluated inside a function body where the focus is absent (F16f)
-  `misc`   `fn:apply` turned an `XPTY0004` raised *inside* the function into `FOAP0001`
+  `misc`   `fn:apply` turned an `XPTY0004` raised *inside* the function into `FOAP0001`; or a partially
+           applied `exists#1` / `empty#1` answered `true` (F16m)
 
 Lazy generators: the model is eager.  It is faithful for programs in which every expression that
 the real code pulls lazily while doing other work (the binding sequence of `for`, the sequence
@@ -93,7 +94,7 @@ structure St where
   deriving Repr, Inhabited
 
 /-- state + trigger flags (or-ed along the run) + exception -/
-def IM (α : Type) := St → Flags × Except Err (α × St)
+@[reducible] def IM (α : Type) := St → Flags × Except Err (α × St)
 
 instance : Monad IM where
   pure a := fun st => (Flags.none, .ok (a, st))
@@ -183,16 +184,24 @@ def callFn (c : ICtx) (D : Env) (a : Nat) (args : List Seq) : IM (Seq × Env) :=
     if o.nargsOk args.length then
       let full := match o.fixed with | none => args | some pat => fill pat args
       match full with
-      | [s] => do
-        let r ← IM.lift (b.ap s)
-        pure (r, D)
+      | [s] =>
+        -- `to_partial_function` replaces `select` of the copy by "yield self"; fn:exists / fn:empty
+        -- evaluate through `self.select`, so a partially applied one answers `bool(self)` = true
+        if o.fixed.isSome && (b == .exists_ || b == .empty_) then do
+          IM.flag { misc := true }
+          pure ([.bool true], D)
+        else do
+          let r ← IM.lift (b.ap s)
+          pure (r, D)
       | _ => IM.throw .XPTY0004
     else IM.throw .XPTY0004
   | .inline ps body =>
     if o.nargsOk args.length then do
       let vars ← currentVars cfg o
       match o.fixed with
-      | some pat => runBody cfg ev c D body (zipFill ps pat args) vars.1 vars.2
+      | some pat => do
+        IM.flag { arity := decide (pat.length ≠ ps.length) }
+        runBody cfg ev c D body (zipFill ps pat args) vars.1 vars.2
       | none =>
         -- repaired code: `if len(args) != len(self.varnames): raise XPTY0004`
         if args.length = ps.length then runBody cfg ev c D body (ps.zip args) vars.1 vars.2
